@@ -119,6 +119,12 @@ CHECKS = {
         text="Each cell runs the real preparation step in its own directory, reads everything back through the real set-up routine and compares: trial variational energy (init_prop_data e_estimate) with the pyscf SCF energy, the lowest eigenvalue of the WRITTEN (h0,h1,chol) with pyscf FCI / frozen-core CASCI, the cisd/ucisd mixed energy at the reference determinant with the CC energy functional at the handed-over amplitudes, header and electron counts with mol.nelec. Tolerances are rigorous bounds derived from the pivoted-Cholesky residual, not fits. Quick = greedy covering array over every letter and 22 axis pairs (58 cells + CC sentinels), thorough = full product of 2118 cells.",
         note="only what the property admits (no UHF/UCCSD with frozen core, no frozen core with user integrals, CC on the default basis); CC on a non-aufbau reference and diverged CCSD cells are counted, not judged; quick tier is a covering array (exhaustive=false), thorough the full product.",
         design="2/C16"),
+    "C11": dict(
+        engine="gridmc+seqmc",
+        technique="exhaustive enumeration of determinant lists (every reference, list orders, cut-offs, three sources incl. binary file round trip and pyscf FCI vectors) x walker grids against sum_i c_i <A_i B_i|phi>; zero-variance identity for exact eigenvectors on the whole walker grid; driver.afqmc option cells with the exact trial",
+        text="Every determinant of the orbital space as reference, single determinants, all pairs, ordered triples and dense vectors in all rotations / adjacent transpositions, cut-off needed+{0,1,3}, sources dict / Dice-layout binary file read back / pyscf FCI object; overlap equal to the explicit alpha-string x beta-string expansion on the walker grid (one oracle for all representations = the invariance claim). For exact eigenvectors of random Hamiltonians and pyscf FCI ground states of H2, H4, LiH the local energy equals the eigenvalue on the whole grid for every admissible reference and both containers (polynomial identity N - E O = 0), with a sign-flipped control; driver.afqmc over option cells returns every block energy = E_0, with a control run.",
+        note="3 orbitals all fillings, 4 orbitals (2,1),(2,2); grids capped by homogeneous degree beyond 4096 points (quick declares caps); finite-difference energy tolerance 1e-5 relative (measured 1.7e-6).",
+        design="2/C11"),
 }
 
 NOT_YET = {}
